@@ -10,8 +10,18 @@ _BRANCHES = ['trap.branch.cruise', 'trap.branch.accel-only', 'trap.branch.decel-
              'bell.branch.cruise', 'bell.branch.nocruise-amax', 'bell.branch.nocruise-reduced-acceleration',
              'bell.branch.decel-only', 'bell.branch.accel-only']
 
+_W_CLAUSES = ['phase-times', 'start-state', 'end-state', 'hold-outside', 'position-continuity', 'velocity-continuity', 'velocity-limit',
+              'evaluator-vs-documented-formula', 'exact-duration', 'exact-kinematics']
+_W_BELL_ONLY = ['acceleration-continuity', 'acceleration-limit', 'jerk-limit', 'plan-vs-documented-formula']
+_W_BRANCHES = ['w-trap.branch.cruise', 'w-trap.branch.accel-only', 'w-trap.branch.decel-only', 'w-trap.branch.accel-decel',
+               'w-bell.branch.cruise', 'w-bell.branch.nocruise-amax', 'w-bell.branch.nocruise-reduced', 'w-bell.branch.decel-only',
+               'w-bell.branch.accel-only']
+
 SPEC = dict(
     harness=['h_traj.c'],
+    # the default (double) build runs the full harness; the other two real widths run a compact type-generic companion
+    configs=lambda tier: [dict(name='f64'), dict(name='f32', real=4, harness=['h_traj_w.c']), dict(name='f80', real=16, harness=['h_traj_w.c'])],
+    parallel_configs=3,
     level='exploration',
     rule='requests are drawn at random (log-uniform limits 1e-3..1e3, distances 1e-6..1e6 in both directions, boundary velocities '
          '0 / +-vm / random / along or against the direction of travel) or solved to sit at a planning-branch condition '
@@ -21,9 +31,13 @@ SPEC = dict(
          'evaluations = judged profiles (each with ~1.7e3 pos/vel/acc/jer queries). distinct_nontrivial = distinct '
          '(generator, planning branch taken [read off the generated context], direction of travel, set of limits reached: '
          'peak velocity = vm, |v0| = vm, |v1| = vm, bell: am reached, -am reached) combinations with at least one fully checked profile '
-         '- NOT the number of requests.',
+         '- NOT the number of requests. The float and long double configurations (harness/h_traj_w.c) add their own judged profiles '
+         '(~0.7e3 queries each; half of them exact-regime requests built from dyadic values) to evaluations and their own cells '
+         '(width, generator, branch, direction, exact or random regime) to distinct_nontrivial.',
     exhaustive={'quick': None, 'thorough': None},
-    require=['trap.judged', 'bell.judged']
+    require=['w-trap.judged', 'w-bell.judged'] + _W_BRANCHES
+            + ['w-trap.' + c for c in _W_CLAUSES] + ['w-bell.' + c for c in _W_CLAUSES + _W_BELL_ONLY]
+            + ['trap.judged', 'bell.judged']
             + [b + d for b in _BRANCHES for d in ('', '.forward', '.reversed')]
             + ['trap.' + c for c in _CLAUSES] + ['bell.' + c for c in _CLAUSES + _BELL_ONLY],
     cov_files=['trajtrap.c', 'trajbell.c'],
@@ -31,7 +45,18 @@ SPEC = dict(
     assumptions=[
         'only executions produced by this run are judged (runtime monitoring, not proof)',
         'gcc 12 / x86-64 LP64 little-endian, A_SIZE_POINTER=8; library rebuilt from /repo working tree with -fsanitize=address,undefined',
-        'a_real = double (A_SIZE_REAL 8); the float and long double builds are not executed',
+        'full harness: a_real = double (A_SIZE_REAL 8). The float (A_SIZE_REAL 4) and x87 long double (A_SIZE_REAL 16) builds run the compact '
+        'type-generic companion h_traj_w.c only (monitors "w-*", keys ending in /f32, /f80): the same kinematic clauses and scale model with '
+        'eps = A_REAL_EPSILON on a smaller workload (phase times, start/end state, hold, continuity, limits at boundaries + 64 instants; no '
+        'grid-step and no extrema clauses), plus an exact regime (dyadic requests whose phase durations are designed first: returned duration and '
+        'pos/vel/acc/jer on a 1/8 time grid compared with == against the binary128 integral of the designed acceleration/jerk phases; all four '
+        'trapezoid branches, bell cruise and no-cruise-amax branches), a one-step binary128 oracle of the evaluators against the formulas '
+        'documented in trajtrap.h/trajbell.h (16/8/4 eps * sum|terms|) and the documented closed forms of the bell planner (steps 1-3 and 4/4c); '
+        'contexts are exact-size heap blocks pre-filled with 0xA5',
+        'companion only: unit_v and unit_p also carry the second-order terms jhat*delta^2 and ahat*delta^2 + jhat*delta^3 of the time error '
+        'delta = eps*T + dt; in float a jerk phase can be shorter than the resolution of time (eps*T = 0.06 at T = 1e6 against am/jm = 3e-6), '
+        'the phase boundaries then collapse and the neighbouring polynomial is evaluated outside its phase (monitor '
+        '"w-bell.weak.jerk-phase-below-time-resolution" counts these profiles); for delta below the jerk time the terms are below ahat*delta',
         'domain as in DESIGN.md C14: trapezoid finite vm>0, ac*dir>0, de*dir<0, p1!=p0, |v0|,|v1|<=vm; bell finite jm,am,vm>0, '
         '|v0|,|v1|<=vm and the Biagiotti-Melchiorri feasibility condition (evaluated in binary128); and the generator returned a duration > 0',
         'the property states no numerical tolerance: a clause is refuted only beyond C*(eps*S + measured conditioning of the request), '
@@ -54,8 +79,13 @@ SPEC = dict(
                'sampled, with requests solved onto every branch condition of both planners; per-branch counts and worst error ratios are reported.',
     level_note='trusted: the harness tolerance model (scale S and +-2 ulp conditioning re-runs through the same generator), binary128 '
                'feasibility test, libm sqrt/nextafter; phase boundaries of the bell profile are taken as the expressions the evaluators use '
-               '(ta-taj, ta+tv, t-td, t-td+tdj, t-tdj), a jump elsewhere is only seen by the grid-step clauses; request space sampled, not enumerated',
+               '(ta-taj, ta+tv, t-td, t-td+tdj, t-tdj), a jump elsewhere is only seen by the grid-step clauses; request space sampled, not enumerated; '
+               'float / long double: compact companion with fewer instants per profile (see assumptions), its one-step and closed-form oracles restate the '
+               'formulas documented in the two headers; a change that only alters WHICH requests the bell planner declines (e.g. the A_REAL_EPSILON '
+               'floor of its acceleration search) is outside the property and not judged in any width',
     technique='randomised + branch-targeted request generation with kinematic runtime monitors (one-sided limits, scale- and '
-              'conditioning-aware tolerances) under ASan+UBSan',
-    workers={'quick': 8, 'thorough': 16},
+              'conditioning-aware tolerances) under ASan+UBSan; float / long double: exact dyadic regime (==) + binary128 one-step and '
+              'closed-form oracles',
+    # three configurations run side by side and share the workers evenly: 8 / 16 per configuration, as the double harness had before
+    workers={'quick': 24, 'thorough': 48},
 )
